@@ -24,6 +24,7 @@ must be total because __repr__ formats nested packets with them.
 Round 6: Packet.unpack stores nothing on the new packet (parsed == built); a field value as the
 bare right operand of a %-format; __eq__ / __repr__ found through the MRO.
 Round 7: (no new rule; the normal form removes record / callable-object spellings before the rules).
+Round 8: (no new rule).
 """
 import ast
 
